@@ -2,9 +2,9 @@ SPECIFICATION Spec
 CONSTANTS
   Calls = {1, 2}
   Hashes <- ModelHashes
-  MaxLanes = 3
+  MaxLanes = 2
   Kinds = {"mline"}
-  LaneCounts = {2, 3}
+  LaneCounts = {2}
   QSizes = {1}
   HashBits = 3
   Fails = {FALSE}
